@@ -1,9 +1,10 @@
 (* GF(2^128): the MSB-first shift-and-reduce loop of src/gf128.c, read on the 128-bit polynomial
    ([gf_mul_horner]), equals SP 800-38D Algorithm 1 ([gf_mul_alg1]: Z = xor of a.x^i mod f over
    the set bits i of the multiplier), and is xor-linear in its first argument.
-   Not proved here: the two-limb loop [gf128_mul] = [gf_mul_horner] on [poly] (compared on every
-   gf128mul case by the C04b driver), and the ring/field laws of the product. *)
-From GmVerif Require Import Base.ListX Base.Bytes Cipher.GF128.
+   Second half of the file: the two-limb loop [gf128_mul] of src/gf128.c (64-bit words, carry
+   between the words) = [gf_mul_horner] on [poly], hence GHASH as coded = GHASH over that product.
+   Not proved: the ring/field laws of the product (irreducibility of the modulus). *)
+From GmVerif Require Import Base.ListX Base.Bytes Hash.MD Cipher.GF128.
 Local Open Scope N_scope.
 
 Lemma land_lxor_l a b m : N.land (N.lxor a b) m = N.lxor (N.land a m) (N.land b m).
@@ -96,3 +97,279 @@ Proof.
 Qed.
 Theorem gf_mul_horner_0_l b : gf_mul_horner 0 b = 0.
 Proof. unfold gf_mul_horner. rewrite horner_psum, xt_0, N.lxor_0_l. apply psum_0_l. Qed.
+
+(* ======================================================================================
+   The two-limb loop of src/gf128.c = the 128-bit Horner form, on poly (r0, r1) = r0 + 2^64 r1.
+   ====================================================================================== *)
+Require Import Lia ZifyN ZifyNat ZifyBool.
+Definition L64 (x : N) : Prop := x < 2^64.
+
+Lemma high_false x n : L64 x -> 64 <= n -> N.testbit x n = false.
+Proof.
+  intros Hx Hn. destruct (N.eq_dec x 0) as [->|Hnz]; [apply N.bits_0|].
+  apply N.bits_above_log2. apply N.lt_le_trans with 64; [|exact Hn].
+  apply N.log2_lt_pow2; [lia|exact Hx].
+Qed.
+Lemma L64_of_bits x : (forall n, 64 <= n -> N.testbit x n = false) -> L64 x.
+Proof.
+  intros H. unfold L64. destruct (N.lt_ge_cases x (2^64)) as [|Hge]; [assumption|exfalso].
+  assert (Hnz : x <> 0) by (intros ->; cbv in Hge; contradiction Hge; reflexivity).
+  pose proof (N.bit_log2 x Hnz) as Hb.
+  rewrite H in Hb; [discriminate|]. apply N.log2_le_pow2; [lia|exact Hge].
+Qed.
+Lemma w64_bit x n : N.testbit (w64 x) n = N.testbit x n && (n <? 64).
+Proof.
+  unfold w64. change mask64 with (N.ones 64). rewrite N.land_spec.
+  destruct (n <? 64) eqn:E.
+  - apply N.ltb_lt in E. rewrite N.ones_spec_low by exact E. reflexivity.
+  - apply N.ltb_ge in E. rewrite N.ones_spec_high by exact E. reflexivity.
+Qed.
+Lemma w64_L64 x : L64 (w64 x).
+Proof. apply L64_of_bits. intros n Hn. rewrite w64_bit. replace (n <? 64) with false by (symmetry; apply N.ltb_ge; exact Hn). apply andb_false_r. Qed.
+Lemma lxor_L64 x y : L64 x -> L64 y -> L64 (N.lxor x y).
+Proof. intros Hx Hy. apply L64_of_bits. intros n Hn. rewrite N.lxor_spec, !high_false by assumption. reflexivity. Qed.
+
+Lemma poly_lor r0 r1 : L64 r0 -> poly (r0, r1) = N.lor r0 (N.shiftl r1 64).
+Proof.
+  intros H0. unfold poly. cbn [fst snd]. rewrite N.mul_comm, <- N.shiftl_mul_pow2.
+  rewrite N.add_nocarry_lxor, N.lxor_lor; try reflexivity;
+    apply N.bits_inj; intros n; rewrite N.land_spec, N.bits_0;
+    destruct (N.lt_ge_cases n 64) as [Hn|Hn];
+    [rewrite N.shiftl_spec_low by exact Hn; apply andb_false_r | rewrite (high_false r0) by assumption; reflexivity
+    |rewrite N.shiftl_spec_low by exact Hn; apply andb_false_r | rewrite (high_false r0) by assumption; reflexivity].
+Qed.
+Lemma poly_bit r0 r1 n : L64 r0 ->
+  N.testbit (poly (r0, r1)) n = if n <? 64 then N.testbit r0 n else N.testbit r1 (n - 64).
+Proof.
+  intros H0. rewrite poly_lor by exact H0. rewrite N.lor_spec.
+  destruct (n <? 64) eqn:E.
+  - apply N.ltb_lt in E. rewrite N.shiftl_spec_low by exact E. apply orb_false_r.
+  - apply N.ltb_ge in E. rewrite (high_false r0) by assumption.
+    rewrite N.shiftl_spec_high' by exact E. reflexivity.
+Qed.
+Lemma poly_lxor a0 a1 b0 b1 : L64 a0 -> L64 b0 ->
+  poly (N.lxor a0 b0, N.lxor a1 b1) = N.lxor (poly (a0, a1)) (poly (b0, b1)).
+Proof.
+  intros Ha Hb. apply N.bits_inj; intros n.
+  rewrite N.lxor_spec, !poly_bit by (first [assumption | apply lxor_L64; assumption]).
+  destruct (n <? 64); apply N.lxor_spec.
+Qed.
+Lemma ones128_bit n : N.testbit ones128 n = (n <? 128).
+Proof.
+  unfold ones128. destruct (n <? 128) eqn:E.
+  - apply N.ltb_lt in E. apply N.ones_spec_low. exact E.
+  - apply N.ltb_ge in E. apply N.ones_spec_high. exact E.
+Qed.
+
+(* the shift across the two limbs is the 128-bit shift *)
+Lemma shift_limbs r0 r1 : L64 r0 -> L64 r1 ->
+  poly (w64 (N.shiftl r0 1), w64 (N.lor (N.shiftl r1 1) (N.shiftr r0 63)))
+  = N.land (N.shiftl (poly (r0, r1)) 1) ones128.
+Proof.
+  intros H0 H1. apply N.bits_inj; intros n.
+  rewrite poly_bit by apply w64_L64. rewrite N.land_spec, ones128_bit, !w64_bit.
+  destruct (N.eq_dec n 0) as [->|Hn0].
+  { cbn [N.ltb N.compare]. rewrite !N.shiftl_spec_low by lia. reflexivity. }
+  rewrite (N.shiftl_spec_high' (poly (r0, r1))) by lia. rewrite poly_bit by exact H0.
+  destruct (n <? 64) eqn:E64.
+  - apply N.ltb_lt in E64. rewrite N.shiftl_spec_high' by lia.
+    replace (n - 1 <? 64) with true by (symmetry; apply N.ltb_lt; lia).
+    replace (n <? 128) with true by (symmetry; apply N.ltb_lt; lia).
+    rewrite !andb_true_r. reflexivity.
+  - apply N.ltb_ge in E64. rewrite N.lor_spec, N.shiftr_spec'.
+    destruct (n <? 128) eqn:E128.
+    + apply N.ltb_lt in E128.
+      replace (n - 64 <? 64) with true by (symmetry; apply N.ltb_lt; lia). rewrite !andb_true_r.
+      destruct (N.eq_dec n 64) as [->|Hn64].
+      * change (64 - 64) with 0. rewrite N.shiftl_spec_low by lia.
+        change (0 + 63) with 63. change (64 - 1) with 63. change (63 <? 64) with true. reflexivity.
+      * rewrite N.shiftl_spec_high' by lia.
+        rewrite (high_false r0 (n - 64 + 63)) by (first [assumption | lia]). rewrite orb_false_r.
+        replace (n - 1 <? 64) with false by (symmetry; apply N.ltb_ge; lia).
+        f_equal. lia.
+    + apply N.ltb_ge in E128.
+      replace (n - 64 <? 64) with false by (symmetry; apply N.ltb_ge; lia). rewrite !andb_false_r. reflexivity.
+Qed.
+
+Lemma poly_xor_low r0 r1 c : L64 r0 -> L64 c -> poly (N.lxor r0 c, r1) = N.lxor (poly (r0, r1)) c.
+Proof.
+  intros H0 Hc. replace c with (poly (c, 0)) at 2 by (unfold poly; cbn; lia).
+  rewrite <- poly_lxor by assumption. rewrite N.lxor_0_r. reflexivity.
+Qed.
+
+(* one msb-first step on the polynomial *)
+Definition hstep (A r : N) (c : bool) : N := let r' := xtime r in if c then N.lxor r' A else r'.
+
+Lemma gf_step_poly a0 a1 r0 r1 bw :
+  L64 a0 -> L64 a1 -> L64 r0 -> L64 r1 ->
+  let '(r0', r1', bw') := gf_step (a0, a1) (r0, r1, bw) in
+  L64 r0' /\ L64 r1' /\ bw' = w64 (N.shiftl bw 1) /\
+  poly (r0', r1') = hstep (poly (a0, a1)) (poly (r0, r1)) (N.testbit bw 63).
+Proof.
+  intros Ha0 Ha1 H0 H1. unfold gf_step. cbn [fst snd].
+  assert (Htop : N.testbit (poly (r0, r1)) 127 = N.testbit r1 63).
+  { rewrite poly_bit by exact H0. reflexivity. }
+  assert (H87 : L64 135) by (unfold L64; reflexivity).
+  set (r1s := w64 (N.lor (N.shiftl r1 1) (N.shiftr r0 63))).
+  set (r0s := w64 (N.shiftl r0 1)).
+  assert (Hr0s : L64 r0s) by apply w64_L64.
+  assert (Hr1s : L64 r1s) by apply w64_L64.
+  assert (Hx : poly ((if N.testbit r1 63 then N.lxor r0s 135 else r0s), r1s) = xtime (poly (r0, r1))).
+  { unfold xtime. rewrite Htop, <- shift_limbs by assumption. fold r0s. fold r1s.
+    destruct (N.testbit r1 63); [apply poly_xor_low; assumption|reflexivity]. }
+  assert (Hr0s' : L64 (if N.testbit r1 63 then N.lxor r0s 135 else r0s))
+    by (destruct (N.testbit r1 63); [apply lxor_L64; assumption|assumption]).
+  unfold hstep. cbn zeta.
+  destruct (N.testbit bw 63).
+  - split; [apply lxor_L64; assumption|]. split; [apply lxor_L64; assumption|]. split; [reflexivity|].
+    rewrite poly_lxor by assumption. rewrite Hx. reflexivity.
+  - split; [assumption|]. split; [assumption|]. split; [reflexivity|]. exact Hx.
+Qed.
+
+(* bits 63, 62, ..., 64-k of bw, most significant first *)
+Fixpoint top_bits (k : nat) (bw : N) : list bool :=
+  match k with O => [] | S j => top_bits j bw ++ [N.testbit bw (63 - N.of_nat j)] end.
+
+Lemma w64_shiftl_bit bw j : (j < 64)%nat ->
+  N.testbit (w64 (N.shiftl bw (N.of_nat j))) 63 = N.testbit bw (63 - N.of_nat j).
+Proof.
+  intros Hj. rewrite w64_bit. change (63 <? 64) with true. rewrite andb_true_r.
+  rewrite N.shiftl_spec_high' by lia. reflexivity.
+Qed.
+Lemma w64_shiftl_step bw j : w64 (N.shiftl (w64 (N.shiftl bw (N.of_nat j))) 1) = w64 (N.shiftl bw (N.of_nat (S j))).
+Proof.
+  apply N.bits_inj; intros n. rewrite !w64_bit.
+  destruct (n <? 64) eqn:E; [|rewrite !andb_false_r; reflexivity]. apply N.ltb_lt in E. rewrite !andb_true_r.
+  destruct (N.eq_dec n 0) as [->|Hn].
+  - rewrite !N.shiftl_spec_low by lia. reflexivity.
+  - rewrite N.shiftl_spec_high' by lia. rewrite w64_bit.
+    replace (n - 1 <? 64) with true by (symmetry; apply N.ltb_lt; lia). rewrite andb_true_r.
+    destruct (N.lt_ge_cases (n - 1) (N.of_nat j)) as [Hlt|Hge].
+    + rewrite !N.shiftl_spec_low by lia. reflexivity.
+    + rewrite !N.shiftl_spec_high' by lia. f_equal. lia.
+Qed.
+
+Lemma w64_id x : L64 x -> w64 x = x.
+Proof.
+  intros H. apply N.bits_inj; intros n. rewrite w64_bit.
+  destruct (n <? 64) eqn:E; [apply andb_true_r|]. apply N.ltb_ge in E.
+  rewrite high_false by assumption. reflexivity.
+Qed.
+
+Lemma iter_poly a0 a1 : L64 a0 -> L64 a1 -> forall k r0 r1 bw, (k <= 64)%nat -> L64 r0 -> L64 r1 -> L64 bw ->
+  let '(r0', r1', bw') := Nat.iter k (gf_step (a0, a1)) (r0, r1, bw) in
+  L64 r0' /\ L64 r1' /\ bw' = w64 (N.shiftl bw (N.of_nat k)) /\
+  poly (r0', r1') = fold_left (hstep (poly (a0, a1))) (top_bits k bw) (poly (r0, r1)).
+Proof.
+  intros Ha0 Ha1. induction k as [|k IH]; intros r0 r1 bw Hk H0 H1 Hbw.
+  - cbn [Nat.iter top_bits fold_left N.of_nat]. cbv beta iota. rewrite N.shiftl_0_r, w64_id by exact Hbw.
+    repeat split; assumption.
+  - change (Nat.iter (S k) (gf_step (a0, a1)) (r0, r1, bw))
+      with (gf_step (a0, a1) (Nat.iter k (gf_step (a0, a1)) (r0, r1, bw))).
+    specialize (IH r0 r1 bw ltac:(lia) H0 H1 Hbw).
+    destruct (Nat.iter k (gf_step (a0, a1)) (r0, r1, bw)) as [[q0 q1] bwk].
+    destruct IH as (Hq0 & Hq1 & Hbwk & Hp).
+    pose proof (gf_step_poly a0 a1 q0 q1 bwk Ha0 Ha1 Hq0 Hq1) as Hs.
+    destruct (gf_step (a0, a1) (q0, q1, bwk)) as [[s0 s1] bws].
+    destruct Hs as (Hs0 & Hs1 & Hbws & Hps). cbv beta iota.
+    split; [exact Hs0|]. split; [exact Hs1|]. split.
+    + rewrite Hbws, Hbwk. apply w64_shiftl_step.
+    + rewrite Hps, Hp. cbn [top_bits]. rewrite fold_left_app. cbn [fold_left].
+      rewrite Hbwk, w64_shiftl_bit by lia. reflexivity.
+Qed.
+
+(* Horner over the bits n-1 .. 0 of B as a fold over an explicit msb-first bit list *)
+Fixpoint bits_desc (n : nat) (B : N) : list bool :=
+  match n with O => [] | S k => N.testbit B (N.of_nat k) :: bits_desc k B end.
+Lemma horner_fold n : forall A B r, horner n A B r = fold_left (hstep A) (bits_desc n B) r.
+Proof. induction n as [|n IH]; intros A B r; cbn [horner bits_desc fold_left]; [reflexivity|]. rewrite IH. reflexivity. Qed.
+
+Lemma top_bits_64 bw : top_bits 64 bw = bits_desc 64 bw.
+Proof. reflexivity. Qed.
+
+Lemma bits_desc_low b0 b1 : L64 b0 -> forall k, (k <= 64)%nat -> bits_desc k (poly (b0, b1)) = bits_desc k b0.
+Proof.
+  intros H0. induction k as [|k IH]; intros Hk; cbn [bits_desc]; [reflexivity|].
+  rewrite IH by lia. f_equal. rewrite poly_bit by exact H0.
+  replace (N.of_nat k <? 64) with true by (symmetry; apply N.ltb_lt; lia). reflexivity.
+Qed.
+Lemma bits_desc_high b0 b1 : L64 b0 -> forall k,
+  bits_desc (k + 64) (poly (b0, b1)) = bits_desc k b1 ++ bits_desc 64 (poly (b0, b1)).
+Proof.
+  intros H0. induction k as [|k IH]; [reflexivity|].
+  cbn [Nat.add bits_desc app]. rewrite IH. f_equal. rewrite poly_bit by exact H0.
+  replace (N.of_nat (k + 64) <? 64) with false by (symmetry; apply N.ltb_ge; lia).
+  f_equal. lia.
+Qed.
+
+(* ---- gf128_mul_limbs: the C function on limb pairs = the Horner product of the polynomials ---- *)
+Theorem gf128_mul_eq_horner a b :
+  L64 (fst a) -> L64 (snd a) -> L64 (fst b) -> L64 (snd b) ->
+  poly (gf128_mul a b) = gf_mul_horner (poly a) (poly b) /\
+  L64 (fst (gf128_mul a b)) /\ L64 (snd (gf128_mul a b)).
+Proof.
+  destruct a as [a0 a1], b as [b0 b1]. cbn [fst snd]. intros Ha0 Ha1 Hb0 Hb1.
+  assert (Hz : L64 0) by (unfold L64; reflexivity).
+  unfold gf128_mul. cbn [fst snd].
+  pose proof (iter_poly a0 a1 Ha0 Ha1 64 0 0 b1 ltac:(lia) Hz Hz Hb1) as H1.
+  destruct (Nat.iter 64 (gf_step (a0, a1)) (0, 0, b1)) as [[q0 q1] bq].
+  destruct H1 as (Hq0 & Hq1 & _ & Hp1).
+  pose proof (iter_poly a0 a1 Ha0 Ha1 64 q0 q1 b0 ltac:(lia) Hq0 Hq1 Hb0) as H2.
+  destruct (Nat.iter 64 (gf_step (a0, a1)) (q0, q1, b0)) as [[s0 s1] bs].
+  destruct H2 as (Hs0 & Hs1 & _ & Hp2).
+  cbn [fst snd]. split; [|split; assumption].
+  rewrite Hp2, Hp1, !top_bits_64.
+  unfold gf_mul_horner. rewrite horner_fold.
+  change 128%nat with (64 + 64)%nat. rewrite bits_desc_high by exact Hb0.
+  rewrite bits_desc_low by (first [exact Hb0 | lia]).
+  rewrite fold_left_app. reflexivity.
+Qed.
+
+(* ---- GHASH as coded (limb pairs) = GHASH over the polynomial product ---- *)
+Definition limbs_ok (x : gf) : Prop := L64 (fst x) /\ L64 (snd x).
+
+Lemma lor_L64 x y : L64 x -> L64 y -> L64 (N.lor x y).
+Proof. intros Hx Hy. apply L64_of_bits. intros n Hn. rewrite N.lor_spec, !high_false by assumption. reflexivity. Qed.
+Lemma land1_L64 x : L64 (N.land x 1).
+Proof.
+  apply L64_of_bits. intros n Hn. rewrite N.land_spec.
+  replace (N.testbit 1 n) with false; [apply andb_false_r|].
+  symmetry. change 1 with (N.ones 1). apply N.ones_spec_high. lia.
+Qed.
+Lemma rev_loop_L64 : forall n r a, L64 r -> L64 (fst (rev_loop n r a)).
+Proof. induction n as [|n IH]; intros r a Hr; cbn [rev_loop]; [exact Hr|]. apply IH, w64_L64. Qed.
+Lemma reverse_bits_L64 a : L64 (reverse_bits a).
+Proof.
+  unfold reverse_bits. pose proof (rev_loop_L64 63 0 a ltac:(unfold L64; reflexivity)) as H.
+  destruct (rev_loop 63 0 a) as [r a']. cbn [fst] in H. apply lor_L64; [exact H|apply land1_L64].
+Qed.
+Lemma gf_from_bytes_ok p : limbs_ok (gf_from_bytes p).
+Proof. split; apply reverse_bits_L64. Qed.
+
+Theorem ghash_step_poly H X blk : limbs_ok H -> limbs_ok X ->
+  poly (ghash_step H X blk) = gf_mul_horner (N.lxor (poly X) (poly (gf_from_bytes blk))) (poly H)
+  /\ limbs_ok (ghash_step H X blk).
+Proof.
+  intros [Hh0 Hh1] [Hx0 Hx1]. destruct (gf_from_bytes_ok blk) as [Hb0 Hb1].
+  unfold ghash_step, gf_add.
+  destruct (gf128_mul_eq_horner (N.lxor (fst X) (fst (gf_from_bytes blk)), N.lxor (snd X) (snd (gf_from_bytes blk))) H)
+    as (Hp & Hl0 & Hl1); cbn [fst snd]; try (apply lxor_L64; assumption); try assumption.
+  split; [|split; assumption].
+  rewrite Hp. f_equal. destruct X as [x0 x1]. destruct (gf_from_bytes blk) as [c0 c1]. cbn [fst snd] in *.
+  apply poly_lxor; assumption.
+Qed.
+
+(* the chaining value of GHASH over whole blocks, computed on 128-bit polynomials *)
+Fixpoint ghash_poly (k : nat) (Hp X : N) (d : list N) : N :=
+  match k with
+  | O => X
+  | S j => ghash_poly j Hp (gf_mul_horner (N.lxor X (poly (gf_from_bytes (firstn 16 d)))) Hp) (skipn 16 d)
+  end.
+Theorem ghash_foldn_poly H : limbs_ok H -> forall k X d, limbs_ok X ->
+  poly (MD.foldn gf (ghash_step H) 16 k X d) = ghash_poly k (poly H) (poly X) d
+  /\ limbs_ok (MD.foldn gf (ghash_step H) 16 k X d).
+Proof.
+  intros HH. induction k as [|k IH]; intros X d HX; cbn [MD.foldn ghash_poly]; [split; [reflexivity|exact HX]|].
+  destruct (ghash_step_poly H X (firstn 16 d) HH HX) as [Hp Hok].
+  rewrite <- Hp. apply IH. exact Hok.
+Qed.
